@@ -12,6 +12,7 @@ import Proofs.TreeCopy
 import Proofs.TreeSep
 import Proofs.TreeHist
 import Proofs.TreeGetVar
+import Proofs.TreeChildren
 namespace Pydap.C12
 open Pydap.Quote Pydap.Tree
 
@@ -226,6 +227,34 @@ example : ((run State.init demo2).handles.filterMap id).map walkIds =
 
 example : ∀ op ∈ ([.del 3 [[[115], [113]]] [[97], [37], [50], [48], [98]], .setAttr 4 [] [[117]] 1] : List Op),
     0 ∉ op.touches := by decide
+
+/-! ## from the invariant to the observers -/
+
+/-- **every container lists its children once**: for an object satisfying the invariant `children()` succeeds and
+    yields, in the order of the visible keys (insertion order; the order of the tuple after a selection), one
+    child per visible key, no name twice, each child satisfying the invariant and carrying the id derived from
+    its parent (parent id `.` name; the name alone below a dataset) -/
+theorem C12_children_listed_once (o : Obj) (ho : invObj o = true) :
+    ∃ cs, children o = .ok cs ∧ cs.map (fun c => c.hdr.name) = o.hdr.visible
+      ∧ (cs.map (fun c => c.hdr.name)).Nodup
+      ∧ ∀ c ∈ cs, invObj c = true ∧ c.hdr.id = childId o.hdr.kind o.hdr.id c.hdr.name := by
+  obtain ⟨cs, a, b, _, d, e⟩ := children_once o ((invO_iff o).2 ho)
+  exact ⟨cs, a, b, d, fun c hc => ⟨(invO_iff c).1 (e c hc).1, (e c hc).2⟩⟩
+
+example : ((run State.init demo2).handles.filterMap id).map
+      (fun o => (children o).toOption.map (fun cs => cs.map (fun c => c.hdr.id))) =
+    [some [[[115], [113]]], some [[[115], [113]]], some [[[115], [113], [46], [97], [37], [50], [48], [98]]]] := by decide
+
+/-- **insertion order**: `container[key] = item` (insert or replace) lists the item last; an item of that name
+    listed before is un-listed first, every other visible key keeps its place -/
+theorem C12_setitem_appends (o item r : Obj) (key : Str) (h : setItem o key item = .ok r) :
+    r.hdr.visible = o.hdr.visible.erase item.hdr.name ++ [item.hdr.name] ∧ quote key = item.hdr.name :=
+  setItem_visible o item r key h
+
+/-- insert `x`, insert `y`, replace `x`: the container lists `y`, `x` -/
+example : ((run State.init [.new .struct [[115]] 0, .new .base [[120]] 1, .set 0 [] [[120]] 1, .new .base [[121]] 2,
+      .set 0 [] [[121]] 2, .new .base [[120]] 3, .set 0 [] [[120]] 3]).handles.filterMap id).map (·.hdr.visible) =
+    [[[[121]], [[120]]]] := by decide
 
 /-! ## `get_var(dataset, var.id) is var` -/
 
